@@ -139,6 +139,7 @@ func main() {
 		os.Exit(2)
 	}
 	ctx := &Ctx{Tier: *tier, Seed: *seed, Driver: *driver, Replay: *replay, Work: *work, VerifDir: *vdir, Rep: newReport(id, *tier, *seed)}
+	globalCtx = ctx
 	start := time.Now()
 	f(ctx)
 	ctx.Rep.WallS = time.Since(start).Seconds()
